@@ -185,13 +185,47 @@ def _str_pre(ctx):
     args = (ctx.arg(1, "format"), ctx.arg(2, "includeBlankSpaces"), ctx.arg(3, "minTimestamp", None), ctx.arg(4, "maxTimestamp", None),
             ctx.arg(5, "minimumIntervalLength", 1e-8))
     why = domain_ok(data, *args)
+    if why == NEAR and (args[4] is None or args[1] is False) and args[2] is None and args[3] is None:
+        # D3b leaves the VALUES of such a document unjudged; one clause stands whatever the values are: with nothing absorbed "every
+        # written interval still has positive length"
+        return ("positive-length", data) + args
     if why:
         REC.skip("write", why)
         return SKIP
     return (data,) + args
 
 
+NEAR = "near-integer-rule-would-merge-distinct-timestamps"
+
+
+def _positive_length(ctx):
+    _tag, data, fmt, blanks, minT, maxT, thr = ctx.pre
+    case = {"call": "write", "tg": snap_like(data), "format": fmt, "blanks": blanks, "minT": minT, "maxT": maxT, "thr": thr, "thr_named": True}
+    if ctx.exc is not None:
+        REC.skip("write", NEAR)
+        return
+    try:
+        doc = PT.read_any(ctx.result, fmt)
+    except PT.SpecError:
+        REC.skip("write", NEAR)
+        return
+    for t, dt in zip(data["tiers"], doc["tiers"]):
+        if t["t"] != "I":
+            continue
+        for w in dt["entries"]:
+            if not w[0] < w[1]:
+                src = [e for e in t["entries"] if TC.match_time(e[0], w[0]) or TC.match_time(e[1], w[1])]
+                REC.violation(PROP, "write", "getTextgridAsStr", case, "nothing is absorbed (threshold %r, blank filling %r), yet tier %r is written with the interval (%r, %r, %r) "
+                              "of no positive length; in memory %r (format %s)" % (thr, blanks, t["name"], w[0], w[1], w[2], src[:3], fmt), ("positive-length", fmt, blanks),
+                              {"format": fmt, "blanks": blanks, "thr": thr, "zero_length_written": True,
+                               "near_whole": bool(src) and all(abs(x - round(x)) <= 1e-14 * max(abs(x), 1.0) for e in src for x in e[:2] if abs(x - w[0]) <= 1e-13 * max(abs(x), 1.0))})
+                return
+    REC.held("write", ("positive-length", fmt, blanks, thr), "C04:near-whole-sliver-keeps-positive-length", case)
+
+
 def _str_post(ctx):
+    if ctx.pre[0] == "positive-length":
+        return _positive_length(ctx)
     data, fmt, blanks, minT, maxT, thr = ctx.pre
     case = {"call": "write", "tg": snap_like(data), "format": fmt, "blanks": blanks, "minT": minT, "maxT": maxT, "thr": thr,
             "thr_named": ctx.arg(5, "minimumIntervalLength", _MISSING) is not _MISSING}
@@ -405,7 +439,7 @@ def workload(tier, rng, shard, nshards, work):
                 r = rng.random()
                 length = rng.choice(SEG_LENGTHS[:8]) if r < 0.45 else rng.choice(SEG_LENGTHS[8:])
                 segs.append((length, rng.choice(["a", "b", "c d", 'q"', ""]) if rng.random() < 0.65 else None))
-            start = rng.choice([0.0, 0.0, 0.37, 1.0 / 3, 2.5, 3600.5, 86400.25])  # also recordings whose time axis starts far from zero
+            start = rng.choice([0.0, 0.0, 0.37, 1.0 / 3, 2.5, 3600.5, 86400.25, 100.0, 4096.0])  # also recordings whose time axis starts far from zero (the last two: on a whole second, where the text formats' number form has its near-integer rule)
             ents, end = assemble(start, segs)
             if not ents:
                 continue
